@@ -112,3 +112,13 @@ func (bs *BarrierSession) VerifSeqno() uint64 {
 func (ab *AccessBarrier) VerifCurrentSession() *BarrierSession {
 	return (*BarrierSession)(atomic.LoadPointer(&ab.session))
 }
+
+// VerifFastForward puts a quiescent barrier (no session queued, nothing flushed
+// but not yet destructed) into the state it would have after n flushes, so that
+// generated scenarios can start deep into the sequence-number space.
+func (ab *AccessBarrier) VerifFastForward(n uint64) {
+	ab.Lock()
+	defer ab.Unlock()
+	ab.activeSeqno = n
+	atomic.StoreUint64(&ab.freeSeqno, n)
+}
